@@ -61,6 +61,14 @@ let rec print b = function
 
 let to_string v = let b = Buffer.create 256 in print b v; Buffer.contents b
 
+(* A case on which the model does not finish is a case on which it cannot vouch for the implementation:
+   the implementation side can hand over absurd values (an index of 2^30 from a broken loader makes a model
+   that counts in unary run for hours). Each case gets a time budget; when it is used up the case is
+   answered ERR (the runner counts that as "property not shown, model and implementation differ"). *)
+exception Case_timeout
+let case_limit = ref (try int_of_string (Sys.getenv "VERIF_MODEL_CASE_S") with _ -> 20)
+let () = Sys.set_signal Sys.sigalrm (Sys.Signal_handle (fun _ -> raise Case_timeout))
+
 let () =
   let out = Buffer.create 65536 in
   (try
@@ -70,6 +78,7 @@ let () =
         | [] | [""] -> Buffer.add_string out "ERR empty\n"
         | inp :: rest ->
           (try
+             ignore (Unix.alarm !case_limit);
              let vi = parse inp in
              let m = run vi in
              (match rest with
@@ -83,7 +92,14 @@ let () =
                 Buffer.add_string out (if a then "\t1\n" else "\t0\n"))
            with
            | Parse_error -> Buffer.add_string out "ERR parse\n"
-           | Stack_overflow -> Buffer.add_string out "ERR stack\n"));
+           | Stack_overflow -> Buffer.add_string out "ERR stack\n"
+           | Out_of_memory -> Buffer.add_string out "ERR memory\n"
+           | Case_timeout ->
+             (* an implementation that is broken in this way is usually broken on many cases: do not spend the
+                full budget on each of them *)
+             case_limit := max 1 (!case_limit / 2);
+             Buffer.add_string out "ERR timeout\n");
+          ignore (Unix.alarm 0));
        if Buffer.length out > 60000 then begin print_string (Buffer.contents out); Buffer.clear out end
      done
    with End_of_file -> ());
